@@ -1571,7 +1571,10 @@ class MatlabWrapper(CheckMixin, FormatMixin):
                                                   prefix='  ')
 
                 # Getter
-                if "_get_" in method_name:
+                # The function name is `<class>_get_<property>_<id>`; the property
+                # name itself may contain `_get_` or `_set_`.
+                accessor_name = method_name.rsplit('_', 1)[0]
+                if accessor_name.endswith("_get_" + extra.name):
                     return_body = self.wrap_collector_property_return(
                         extra, instantiated_class=collector_func[1])
 
@@ -1588,7 +1591,7 @@ class MatlabWrapper(CheckMixin, FormatMixin):
                     body += getter
 
                 # Setter
-                if "_set_" in method_name:
+                if accessor_name.endswith("_set_" + extra.name):
                     is_ptr_type = self.can_be_pointer(extra.ctype) and \
                         not self.is_enum(extra.ctype, collector_func[1])
                     return_body = '  obj->{0} = {1}{0};'.format(
